@@ -18,9 +18,20 @@
      hand over indexes inside the source's shape — for any source, any prefix, empty sources —
      and for every source built by the adaptor constructors such an index is routed down to a
      storage offset inside the stored data of the tensor at the bottom.
+   Wave 2 (end of this file; Proofs/C10RouteP.v, Model/RecordFwd.v) closes the forwarding sites
+   that had no theorem of their own:
+   * the routing theorem over ARBITRARY view terms of the C02 algebra — TensorIndex,
+     TensorExpansion, TensorStack, TensorChain, wrappers, matrix-backed leaves, any depth — as a
+     corollary of C02_present_iff / C02_resolves_in_bounds: every in-shape index, hence every index
+     the tensor iterators hand to get_reference_unchecked(_mut), ends at an in-bounds offset of one
+     leaf; outside the shape nothing is accessed (the C10_any_view_.. theorems);
+   * RecordTensor / RecordMatrix as sources: identity forwarding onto `numbers`
+     (C10_record_.._forwarding_in_bounds, over adaptor stacks, matrix sources and any view term);
+   * MatrixPart: both get_unchecked calls in bounds for every part of partition /
+     partition_quadrants, parts never share a storage position (C10_partition_parts_in_bounds, ..).
    Own correspondence (Run/RunC10.v): closure / iterator panic injection, tensor mutation
    histories (10 7), matrix mutation histories under hooks (10 8), stack / chain constructor
-   walks (10 9). *)
+   walks (10 9), also under one outer TensorIndex / TensorExpansion (nested views). *)
 From Coq Require Import List ZArith NArith Bool Arith.
 From EasyML Require Import Base.Sx Model.Shape Model.Tensor Model.U64 Model.Fallible
      Proofs.ShapeP Proofs.C01P Proofs.C16P Proofs.C10P.
@@ -271,3 +282,206 @@ Print Assumptions C10_column_iter_places_in_size.
 Print Assumptions C10_row_iter_places_in_size.
 Print Assumptions C10_diagonal_iter_places_in_size.
 Print Assumptions C10_wf_matrix_place_present.
+
+(* ================= wave 2 (session 3) ================= *)
+From EasyML Require Model.RecordFwd Proofs.C02P Proofs.C11P Proofs.C10RouteP.
+
+(* ---- the routing theorem over ARBITRARY view terms (all 13 adaptors: TensorIndex, TensorExpansion,
+   TensorStack, TensorChain, wrappers and matrix-backed leaves included; any depth): every index
+   inside the view's shape -- hence every index a tensor iterator hands to
+   get_reference_unchecked(_mut) of the view -- resolves to an offset inside the stored data of one
+   leaf tensor / matrix (`c_leaves c` lists (leaf id, stored element count)); an index of the right
+   dimensionality outside the shape resolves to nothing.  `usize_view c`: the lengths of every
+   mask's source fit a usize (a typing fact in Rust).  Corollaries of C02_present_iff /
+   C02_resolves_in_bounds and of C09's shape iterator theorem. ---- *)
+Theorem C10_any_view_route_in_bounds : forall v c idx, Views.v_ctor v = Ok c -> C02P.usize_view c ->
+  in_range idx (lens_of (Views.c_shape c)) ->
+  exists l off n, Views.c_get c idx = Some (l, off) /\ In (l, n) (Views.c_leaves c) /\ off < n.
+Proof. exact C10RouteP.any_view_route_in_bounds. Qed.
+
+Theorem C10_any_view_outside_no_access : forall v c idx, Views.v_ctor v = Ok c -> C02P.usize_view c ->
+  length idx = length (Views.c_shape c) -> ~ in_range idx (lens_of (Views.c_shape c)) ->
+  Views.c_get c idx = None.
+Proof. exact C10RouteP.any_view_outside_no_access. Qed.
+
+(* `C10RouteP.view_iter_places c k` = the indexes yielded by the first k calls of the ShapeIterator
+   over the view's shape (the engine of the four tensor iterators with an unsafe block) *)
+Theorem C10_any_view_iter_places_in_shape : forall c k,
+  Forall (fun idx => in_range idx (lens_of (Views.c_shape c)))
+    (Transform.somes (map fst (fst
+       (ShapeIter.drive ShapeIter.iter_next ShapeIter.iter_len k (ShapeIter.shape_iter_from (Views.c_shape c)))))).
+Proof. exact C10RouteP.any_view_iter_places_in_shape. Qed.
+
+Theorem C10_any_view_iter_accesses_in_bounds : forall v c k, Views.v_ctor v = Ok c -> C02P.usize_view c ->
+  Forall (fun idx => exists l off n,
+            Views.c_get c idx = Some (l, off) /\ In (l, n) (Views.c_leaves c) /\ off < n)
+    (Transform.somes (map fst (fst
+       (ShapeIter.drive ShapeIter.iter_next ShapeIter.iter_len k (ShapeIter.shape_iter_from (Views.c_shape c)))))).
+Proof. exact C10RouteP.any_view_iter_accesses_in_bounds. Qed.
+
+(* ---- RecordTensor / RecordMatrix as sources (Model/RecordFwd.v; container_record/mod.rs:2512-2635):
+   every accessor hands the SAME index to the wrapped container, whose shape is reported as the
+   record container's; so an index inside the record container's shape is inside the source's and
+   lands in bounds: over a constructed adaptor stack (tensor at the bottom) at a storage offset
+   < data.len(); over a well-formed matrix source at an existing element (over a Matrix at
+   column + row * columns < data.len()); over ANY view term of the C02 algebra (RecordTensor is
+   its index-transparent wrapper) at an in-bounds offset of one leaf. ---- *)
+Theorem C10_record_tensor_forwarding_in_bounds : forall T (r : RecordFwd.record_tensor (T := T)) idx,
+  SrcWfP.constructed (RecordFwd.rt_numbers r) -> in_range idx (lens_of (RecordFwd.rt_view_shape r)) ->
+  RecordFwd.rt_forward idx = idx /\
+  in_range (RecordFwd.rt_forward idx) (lens_of (TSource.src_shape (RecordFwd.rt_numbers r))) /\
+  exists b p x, C10IterP.src_route (RecordFwd.rt_numbers r) (RecordFwd.rt_forward idx) = Some b /\
+    in_range b (lens_of (t_shape (TSource.src_base (RecordFwd.rt_numbers r)))) /\
+    get_index_direct b (t_strides (TSource.src_base (RecordFwd.rt_numbers r)))
+                       (t_shape (TSource.src_base (RecordFwd.rt_numbers r))) = Some p /\
+    (N.to_nat p < length (t_data (TSource.src_base (RecordFwd.rt_numbers r))))%nat /\
+    RecordFwd.rt_get_reference r idx = Some x.
+Proof. exact @C10RouteP.record_tensor_forwarding_in_bounds. Qed.
+
+Theorem C10_record_tensor_write_forwarded : forall T (r r' : RecordFwd.record_tensor (T := T)) idx v,
+  RecordFwd.rt_set r idx v = Some r' ->
+  TSource.src_set (RecordFwd.rt_numbers r) idx v = Some (RecordFwd.rt_numbers r') /\
+  RecordFwd.rt_history r' = RecordFwd.rt_history r.
+Proof. exact @C10RouteP.record_tensor_write_keeps_frame. Qed.
+
+Theorem C10_record_matrix_forwarding_in_bounds : forall T (r : RecordFwd.record_matrix (T := T)) row column,
+  C09MatOwnedP.msrc_wf (RecordFwd.rm_numbers r) ->
+  row < RecordFwd.rm_view_rows r -> column < RecordFwd.rm_view_columns r ->
+  RecordFwd.rm_forward row column = (row, column) /\
+  C10IterP.in_size (RecordFwd.rm_numbers r) (RecordFwd.rm_forward row column) /\
+  (exists x, RecordFwd.rm_try_get_reference r row column = Some x) /\
+  (forall m, RecordFwd.rm_numbers r = MatrixIter.MBase m ->
+     (N.to_nat (column + row * MatrixIter.m_cols m) < length (MatrixIter.m_data m))%nat).
+Proof. exact @C10RouteP.record_matrix_forwarding_in_bounds. Qed.
+
+Theorem C10_record_view_forwarding_in_bounds : forall v c',
+  Views.v_ctor (RecordFwd.record_view v) = Ok c' -> C02P.usize_view c' ->
+  exists c, Views.v_ctor v = Ok c /\ c' = RecordFwd.record_cview c /\ Views.c_shape c' = Views.c_shape c /\
+    (forall idx, Views.c_get c' idx = Views.c_get c idx) /\
+    forall idx, in_range idx (lens_of (Views.c_shape c')) ->
+      exists l off n, Views.c_get c idx = Some (l, off) /\ In (l, n) (Views.c_leaves c) /\ off < n.
+Proof. exact C10RouteP.record_view_forwarding_in_bounds. Qed.
+
+(* ---- MatrixPart (matrices/views/partitions.rs:70-80, 103-113:
+   `data.get_unchecked(row).get_unchecked(column)`), for every part handed out by Matrix::partition
+   over a matrix satisfying the invariant: for (row, column) inside the part's size, `row` is inside
+   `data` (one (offset, length) slice per row), `column` inside that slice, the cell inside the
+   matrix's storage; the part's size agrees with its slices (what the verif-hook asserts); and no
+   two different (part, row, column) resolve to the same storage position -- what makes handing
+   out several mutable parts sound.  Corollary of C12's partition theorems. ---- *)
+Theorem C10_partition_parts_in_bounds : forall (T : Type) (s : Matrix.matrix T) rp cp parts,
+  C10Matrix.matrix_invariant s ->
+  MatrixViews.partition (Matrix.m_rows s) (Matrix.m_cols s) rp cp = Ok parts ->
+  (forall p, In p parts -> forall row column,
+     row < MatrixViews.p_rows p -> column < MatrixViews.p_cols p ->
+     N.of_nat (length (MatrixViews.p_slices p)) = MatrixViews.p_rows p /\
+     Forall (fun sl => snd sl = MatrixViews.p_cols p) (MatrixViews.p_slices p) /\
+     exists offset len,
+       nth_error (MatrixViews.p_slices p) (N.to_nat row) = Some (offset, len) /\ column < len /\
+       MatrixViews.try_get (MatrixViews.VPart p) row column = MatrixViews.Cell (offset + column) /\
+       offset + column < N.of_nat (length (Matrix.m_data s))) /\
+  (forall k k' p p' i j i' j' a,
+     nth_error parts k = Some p -> nth_error parts k' = Some p' ->
+     MatrixViews.try_get (MatrixViews.VPart p) i j = MatrixViews.Cell a ->
+     MatrixViews.try_get (MatrixViews.VPart p') i' j' = MatrixViews.Cell a ->
+     k = k' /\ i = i' /\ j = j').
+Proof. exact C10RouteP.partition_parts_in_bounds. Qed.
+
+Theorem C10_quadrants_parts_in_bounds : forall (T : Type) (s : Matrix.matrix T) qr qc parts,
+  C10Matrix.matrix_invariant s ->
+  MatrixViews.partition_quadrants (Matrix.m_rows s) (Matrix.m_cols s) qr qc = Ok parts ->
+  forall p, In p parts -> forall row column,
+    row < MatrixViews.p_rows p -> column < MatrixViews.p_cols p ->
+    exists offset len,
+      nth_error (MatrixViews.p_slices p) (N.to_nat row) = Some (offset, len) /\ column < len /\
+      offset + column < N.of_nat (length (Matrix.m_data s)).
+Proof. exact C10RouteP.quadrants_parts_in_bounds. Qed.
+
+(* the part-level statement C12 proved for C10 (present exactly inside the size, root cell in
+   bounds, disjointness), and the same after ANY resizing history of the matrix *)
+Theorem C10_matrix_part_resolves_in_bounds : forall (T : Type) (s : Matrix.matrix T) rp cp parts,
+  C10Matrix.matrix_invariant s ->
+  MatrixViews.partition (Matrix.m_rows s) (Matrix.m_cols s) rp cp = Ok parts ->
+  (forall p, In p parts -> forall row column,
+     (C12P.inside (MatrixViews.VPart p) row column = true ->
+        exists a, MatrixViews.try_get (MatrixViews.VPart p) row column = MatrixViews.Cell a /\
+                  C10Matrix.root_cell (Matrix.m_rows s) (Matrix.m_cols s) a /\
+                  a < N.of_nat (length (Matrix.m_data s))) /\
+     (C12P.inside (MatrixViews.VPart p) row column = false ->
+        MatrixViews.try_get (MatrixViews.VPart p) row column = MatrixViews.Absent)) /\
+  (forall k k' p p' i j i' j' a,
+     nth_error parts k = Some p -> nth_error parts k' = Some p' ->
+     MatrixViews.try_get (MatrixViews.VPart p) i j = MatrixViews.Cell a ->
+     MatrixViews.try_get (MatrixViews.VPart p') i' j' = MatrixViews.Cell a ->
+     k = k' /\ i = i' /\ j = j').
+Proof. exact C10Matrix.matrix_part_resolves_in_bounds. Qed.
+
+Theorem C10_matrix_part_after_history_in_bounds :
+  forall (T : Type) (s : Matrix.matrix T) (ops : list (Matrix.op T)) rp cp parts,
+  C10Matrix.matrix_invariant s ->
+  let s' := C11P.impl_run s ops in
+  MatrixViews.partition (Matrix.m_rows s') (Matrix.m_cols s') rp cp = Ok parts ->
+  forall p, In p parts -> forall row column,
+    (C12P.inside (MatrixViews.VPart p) row column = true ->
+       exists a, MatrixViews.try_get (MatrixViews.VPart p) row column = MatrixViews.Cell a /\
+                 C10Matrix.root_cell (Matrix.m_rows s') (Matrix.m_cols s') a /\
+                 a < N.of_nat (length (Matrix.m_data s'))) /\
+    (C12P.inside (MatrixViews.VPart p) row column = false ->
+       MatrixViews.try_get (MatrixViews.VPart p) row column = MatrixViews.Absent).
+Proof. exact C10Matrix.matrix_part_after_history_in_bounds. Qed.
+
+(* non-vacuity: a selection (TensorIndex) of an expansion (TensorExpansion) of a stack (TensorStack)
+   of [a chain (TensorChain) of a 2x3 and a 1x3 tensor; a selection of a 3x3x4 tensor]: constructible,
+   usize; the six indexes the iterator yields route to offsets 0,1,2 of leaf 2 (3 elements) and
+   25,29,33 of leaf 3 (36 elements); an index outside is absent *)
+Definition c10_example_view : Views.view :=
+  Views.VIndex
+    (Views.VExpand
+       (Views.VStack
+          [ Views.VChain [Views.VTensor 1 [(0%nat, 2); (1%nat, 3)]; Views.VTensor 2 [(0%nat, 1); (1%nat, 3)]] 0%nat;
+            Views.VIndex (Views.VTensor 3 [(0%nat, 3); (1%nat, 3); (2%nat, 4)]) [(2%nat, 1)] ]
+          0%nat 7%nat)
+       [(1%nat, 8%nat)])
+    [(0%nat, 2)].
+
+Example C10_nonvacuous_any_view :
+  exists c, Views.v_ctor c10_example_view = Ok c /\ C02P.usize_view c /\
+    Views.c_shape c = [(7%nat, 2); (8%nat, 1); (1%nat, 3)] /\
+    Views.c_leaves c = [(1, 6); (2, 3); (3, 36)] /\
+    C10RouteP.view_iter_places c 7 = [[0; 0; 0]; [0; 0; 1]; [0; 0; 2]; [1; 0; 0]; [1; 0; 1]; [1; 0; 2]] /\
+    map (Views.c_get c) (C10RouteP.view_iter_places c 7) =
+      [Some (2, 0); Some (2, 1); Some (2, 2); Some (3, 25); Some (3, 29); Some (3, 33)] /\
+    Views.c_get c [2; 0; 0] = None /\ Views.c_get c [1; 0; 3] = None.
+Proof.
+  eexists. split; [vm_compute; reflexivity|]. split; [cbn; tauto|]. vm_compute. repeat split.
+Qed.
+
+(* non-vacuity of the record / partition statements: a record matrix over rows 1.. of a 3x2 matrix of
+   (value, index) pairs forwards (1, 1) to the element stored at position 5; a 3x4 matrix split
+   at row 1 / column 3 hands out four parts whose slices are inside the 12 stored elements *)
+Example C10_nonvacuous_record_partition :
+  (exists m, MatrixIter.matrix_from_flat 3 2 [(10%Z, 0); (11%Z, 1); (12%Z, 2); (13%Z, 3); (14%Z, 4); (15%Z, 5)] = Ok m /\
+     let r := RecordFwd.mkRM (MatrixIter.mrange_from (MatrixIter.MBase m) (1, 2) (0, 2)) None in
+     C09MatOwnedP.msrc_wf (RecordFwd.rm_numbers r) /\ RecordFwd.rm_view_rows r = 2 /\
+     RecordFwd.rm_try_get_reference r 1 1 = Some (15%Z, 5)) /\
+  MatrixViews.partition 3 4 [1] [3] =
+    Ok [MatrixViews.mkPart [(0, 3)] 1 3; MatrixViews.mkPart [(3, 1)] 1 1;
+        MatrixViews.mkPart [(4, 3); (8, 3)] 2 3; MatrixViews.mkPart [(7, 1); (11, 1)] 2 1].
+Proof.
+  split; [|vm_compute; reflexivity].
+  eexists. split; [vm_compute; reflexivity|]. cbv zeta. split; [|split; vm_compute; reflexivity].
+  apply C09MatOwnedP.mrange_from_wf. vm_compute. reflexivity.
+Qed.
+
+Print Assumptions C10_any_view_route_in_bounds.
+Print Assumptions C10_any_view_outside_no_access.
+Print Assumptions C10_any_view_iter_places_in_shape.
+Print Assumptions C10_any_view_iter_accesses_in_bounds.
+Print Assumptions C10_record_tensor_forwarding_in_bounds.
+Print Assumptions C10_record_tensor_write_forwarded.
+Print Assumptions C10_record_matrix_forwarding_in_bounds.
+Print Assumptions C10_record_view_forwarding_in_bounds.
+Print Assumptions C10_partition_parts_in_bounds.
+Print Assumptions C10_quadrants_parts_in_bounds.
+Print Assumptions C10_matrix_part_resolves_in_bounds.
+Print Assumptions C10_matrix_part_after_history_in_bounds.
